@@ -532,7 +532,10 @@ fn subs_for<B: Backend>(out: &mut Vec<SubCheck>) {
                 let fx = fixture::<B>(1);
                 fault_one::<B>(acc, &fx, &c)
             },
-        ));
+        )
+        // in a child process, supervised: an operation that keeps drawing from a source that keeps
+        // failing (and so never returns) is decided by CPU time and a control run, not by the watchdog
+        .isolated());
     }
 }
 
@@ -542,7 +545,7 @@ pub fn def() -> PropertyDef {
     PropertyDef {
         id: "C16",
         level: "fault_enumeration",
-        rule: "(1) histories: per back end and operation kind {encrypt, sign (randomised signers), PIE wrap and password wrap (of a local and of a secret key), key seal, LocalKey::random, SecretKey::random, decrypt-then-encrypt-again of the returned UnsealedToken} N consecutive operations with IDENTICAL keys and messages (N = 20000 / 5000 / 100..3000 for RSA- and ECDH-bound kinds in quick, up to 10^5 thorough); the nonce / salt / ephemeral key / signature / key of every output goes into a set: no repeats, no identical outputs; on getrandom back ends the draw log must show the draw(s) of the specified width and the output field must be the prescribed function of the drawn bytes (v3/v4 nonce = draw, v1/v2 nonce = MAC(draw, m), PBKW salt/nonce = draws, epk = [draw]G, c = r^e, generated key = draw); every byte position of every nonce / salt / random key must change at least once over a history (a constant byte means that part is not drawn from the RNG); (2) fault sequences on getrandom back ends: for every operation kind and EVERY draw index it makes, the draw fails after filling 0, half or all of the buffer (including the extra draws of rejection-sampling retry paths, reached by scripting an all-ones / all-zero first candidate): the result must be Err (no panic, no output) and the next operation must succeed. Non-trivial iff the operation has a predecessor with identical inputs / an injected failure at index >= 1 or with a partially filled buffer",
+        rule: "(1) histories: per back end and operation kind {encrypt, sign (randomised signers), PIE wrap and password wrap (of a local and of a secret key), key seal, LocalKey::random, SecretKey::random, decrypt-then-encrypt-again of the returned UnsealedToken} N consecutive operations with IDENTICAL keys and messages (N = 20000 / 5000 / 100..3000 for RSA- and ECDH-bound kinds in quick, up to 10^5 thorough); the nonce / salt / ephemeral key / signature / key of every output goes into a set: no repeats, no identical outputs; on getrandom back ends the draw log must show the draw(s) of the specified width and the output field must be the prescribed function of the drawn bytes (v3/v4 nonce = draw, v1/v2 nonce = MAC(draw, m), PBKW salt/nonce = draws, epk = [draw]G, c = r^e, generated key = draw); every byte position of every nonce / salt / random key must change at least once over a history (a constant byte means that part is not drawn from the RNG); (2) fault sequences on getrandom back ends: for every operation kind and EVERY draw index it makes, the draw fails after filling 0, half or all of the buffer (including the extra draws of rejection-sampling retry paths, reached by scripting an all-ones / all-zero first candidate): the result must be Err (no panic, no output, and it must RETURN: the fault sub-checks run supervised in child processes, a case that consumes 60 s of CPU without returning, and again in a fresh process, is a violation) and the next operation must succeed. Non-trivial iff the operation has a predecessor with identical inputs / an injected failure at index >= 1 or with a partially filled buffer",
         assumptions: vec![
             "aws-lc (RAND_bytes), libsodium (randombytes) and rsa::OsRng (getrandom 0.2) cannot be failed in-process; for them only the history part applies",
             "getrandom back ends draw from a seeded deterministic stream during histories (distinct per draw), so a repeat can only come from the library",
